@@ -1,14 +1,16 @@
 """C20 — the register model aliases registers exactly as the hardware does."""
 import json, os
-from ..modules import REGS, REGHW
+from ..modules import REGS, REGHW, REGVARS
 
 
 def run(ctx):
-    if not ctx.build_harness():
+    if not ctx.build_harness(["c20.go", "c20vars.go", "gen_reghw.go"]):
         return
     # Gen.Regs from the compiled reg package; Oracle.RegHW measured now: go tool asm + three decoders
     # + execution of every register write on the host CPU (throw-away module under .work/C20/reghw/probe)
-    ctx.regen([REGS, REGHW])
+    # Gen.RegVars: the exported register variables (go/types enumeration of /repo/reg + a generated observer program
+    # built against the current tree under .work/C20/regvars)
+    ctx.regen([REGS, REGHW, REGVARS])
     ctx.forbidden_scan()
     # the driver (model, tables, acceptors) must build even when a table theorem breaks
     if not ctx.build_driver():
@@ -20,45 +22,106 @@ def run(ctx):
     nt = lambda req, resp: not ((req.startswith("spec ") and int(req.split()[1]) >= 128) or req.startswith("id ")
                                 or (req.startswith("lookup") and resp == "nil"))
     ctx.run_corpus("c20", nontrivial=nt)
+    runs = []
     if ctx.replay:
         ctx.differential("c20", 0, nontrivial=nt, max_report=1000)
     else:
         ctx.differential("c20", 2000 if ctx.tier == "quick" else 60000, nontrivial=nt, max_report=1000)
+        runs.append("c20")
         if ctx.tier == "thorough":
             base = ctx.seed
             for k in (1, 2):
                 ctx.seed = base * 1000003 + k
                 ctx.differential("c20", 20000, tag=f"-s{k}", nontrivial=nt, max_report=1000)
+                runs.append(f"c20-s{k}")
             ctx.seed = base
+    # lower bounds on what was judged: a stream that silently shrinks (an enumerator that finds nothing, an interface
+    # whose methods are no longer seen, allocations that all fail) must not pass for "no mismatch"
+    floors = {"row": 172, "accept-reg": 172, "accept-var": 172, "accept-class": 172, "pas": 600, "accept-as": 150,
+              "accept-ident": 14000, "accept-lookup": 1000, "lookupid": 1000, "lookupphys": 2000, "spec": 65536,
+              "accept-ctor": 50, "vas": 300, "accept-vas": 40, "accept-vnew": 300, "vnew": 150, "vlook": 500,
+              "accept-vlook": 400, "coll": 100, "collrun": 3, "accept-fresh": 100, "accept-lookup-junk": 100}
+    for tag in runs:
+        got = ctx.coverage.get("input_distribution", {}).get(tag, {}).get("requests_by_kind")
+        if got is None:
+            continue  # the run itself failed: already recorded
+        low = {k: (got.get(k, 0), v) for k, v in floors.items() if got.get(k, 0) < v}
+        if low:
+            ctx.obligation_failures.append((f"{tag}: sample floors", "fewer judged cases than the floor (got, floor): " + repr(low)))
     try:
         ctx.coverage["oracle_RegHW"] = json.load(open(os.path.join(ctx.dir, "reghw", "summary.json")))
     except Exception as e:  # the generator failed: already recorded as a broken obligation by regen
         ctx.coverage["oracle_RegHW"] = {"unavailable": str(e)}
     ctx.coverage["exhaustive"] = True
+    hw = ctx.coverage.get("oracle_RegHW", {})
+    if isinstance(hw.get("register_views"), int):
+        # execution is part of the statement ("machine state after a move through each register view"): say how much of
+        # it was real on this host, and refuse to pass on a host where not even the GP rows ran
+        ctx.coverage["executed"] = (f"{hw.get('rows_with_execution')} of {hw.get('oracle_rows')} measured rows were executed on the host CPU "
+                                    f"(host_avx512={hw.get('host_avx512')}); encoding-only rows: {len(hw.get('encoding_only_rows', []))}")
+        if not hw.get("host_avx512"):
+            ctx.assumptions.append("THIS HOST LACKS AVX-512: all vector and opmask rows were checked by encoding only (three decoders), "
+                                   "the executed half of RegOK/ExecAgrees is vacuous for them on this host")
+        if (hw.get("rows_with_execution") or 0) < 60:
+            ctx.obligation_failures.append(("oracle RegHW: executed rows", f"only {hw.get('rows_with_execution')} rows were executed (floor 60: the GP views)"))
+    ctx.coverage["proof_partial"] = (
+        "proof over regenerated + measured tables: the theorems about ids, specs, lookups, conversions, virtual registers and "
+        "collections hold for all inputs; the theorems about hardware (reg_hw, reg_identity, reg_class, reg_vars) are kernel-checked "
+        "over tables MEASURED on this run (go tool asm, three decoders, the host CPU) — what the assembler and the CPU do cannot be a "
+        "theorem about avo; hwViewExists/hwSpecExists (which views x86-64 has) and varDenotes (what a register name denotes) are hand-written")
     ctx.coverage["rule"] = (
-        "EXHAUSTIVE on every run: all rows of reg.Families (176) with ID/Mask/Size/Asm/Info and operand.Is* classification; every "
-        "physical register x every conversion its interface offers (696 calls, panics recovered) and every Collection constructor x "
-        "conversion at 5 counter values; reg.LookupID for every physical id x 18 spec values; LookupPhysical over kinds 0..4 x idx 0..33 x 12 specs; "
+        "EXHAUSTIVE on every run: all rows of reg.Families (176) with ID/Mask/Size/Asm/Info and operand.Is* classification; every EXPORTED "
+        "REGISTER VARIABLE of package reg (176; enumerated by type-checking /repo/reg with go/types, observed through a generated program "
+        "linked against the current tree) against the hand-written naming table (accept-var + theorem reg_vars); every "
+        "physical register x every conversion its interface offers (696 calls; a panic, nil or unusable result is the outcome `fails`) and every "
+        "Collection constructor x conversion at 5 counter values; reg.NewVirtual / Family.Virtual / Collection.VirtualRegister / GP(s) / Vec(s) on "
+        "kinds 0..4 x 18 spec values (+ random arguments) x every conversion; reg.Allocation.LookupRegister / LookupDefault / "
+        "LookupRegisterDefault for every virtual constructor x every physical id of every kind (virtual -> physical view); "
+        "reg.LookupID for every physical id x 18 spec values; LookupPhysical over kinds 0..4 x idx 0..33 x 12 specs; "
         "Spec.Size/Mask for all 65536 spec values; identity acceptor on all 14 878 pairs of physical registers; allocation runs of 65536 and "
-        "65537 registers per kind. GENERATED (-n): conversion chains of length 2-5 on physical and virtual registers, mixed allocation "
-        "histories, malformed/random ids, kinds, indexes and specs for the lookups. Exact comparison with the Lean model for everything "
-        "the API pins down; acceptors (accept-reg/-ident/-as/-lookup/-lookup-virtual/-vas/-fresh/-class/-vclass) evaluate the proved clauses of the "
-        "property (RegOK, IdentOK, AsOK, VAsOK, FreshOK, ClassOK) on the implementation's outputs against the measured table. "
+        "65537 registers per kind (every allocation under recover: a refusal is accepted from allocation number 65536 on). "
+        "GENERATED (-n): conversion chains of length 2-5 on physical and virtual registers, mixed allocation "
+        "histories, malformed/random ids, kinds, indexes and specs for the lookups and the virtual constructors. Exact comparison with the Lean model "
+        "for everything the API pins down; acceptors (accept-reg/-var/-ident/-as/-lookup/-lookup-virtual/-lookup-junk/-vas/-vnew/-vlook/-ctor/"
+        "-fresh/-alloc-fail/-class/-vclass) evaluate (`decide`) the declarative clauses proved in Props/C20.lean (RegOK, VarOK, IdentOK, AsOK, "
+        "JunkLookupOK, VAsOK, VNewOK, FreshOK, AllocFailOK, ClassOK, VClassOK) on the implementation's outputs against the measured table. "
+        "LookupID on a value with junk in the flag byte (never built by avo) is judged by an acceptor only (nil, or the register the kind/index "
+        "fields name). Lower bounds on the number of judged cases per stream are obligations. "
         "non-trivial = not a spec value >= 128, a raw id decomposition or a lookup answering nil")
     ctx.assumptions += [
-        "the bytes 'a write through the view can change' are the bytes that take the written value (measured: zeros->ones experiment); bytes "
-        "that a write merely CLEARS as a side effect of the encoding (bytes 4-7 of the 64-bit register for a 32-bit GP write, everything above "
-        "the operand for VEX/EVEX vector writes) are not part of avo's view masks by design (32-bit case: ZeroExtend32BitOutputs); they are "
-        "measured and listed under coverage.oracle_RegHW.zeroing_side_effects and characterised by theorem hw_zeroing, not compared with the masks",
-        "the four views of the stack pointer (SP 8/16/32/64-bit) are checked by encoding only (a write through them cannot be executed safely)",
+        "DIVERGENCE FROM THE SENTENCE, declared: 'the bytes a write through the view can change' is checked as 'the bytes that take the written "
+        "value' (measured: zeros->ones experiment). Bytes that a write merely CLEARS as a side effect of the encoding (bytes 4-7 of the 64-bit "
+        "register for a 32-bit GP write, everything above the operand for VEX/EVEX vector writes) are not part of avo's view masks by design "
+        "(32-bit case: ZeroExtend32BitOutputs; vector case: finding F12 under C01/C04); they are measured, listed under "
+        "coverage.oracle_RegHW.zeroing_side_effects and characterised by theorem hw_zeroing, but NOT compared with the masks",
+        "the four views of the stack pointer (SP 8/16/32/64-bit) are checked by encoding only (a write through them cannot be executed safely); "
+        "every other general-purpose row is executed (theorem reg_executed_gp); vector / opmask rows are executed when the host has AVX-512 "
+        "(see coverage.executed)",
         "vector rows: MOVOU (legacy SSE, X0-X15), VMOVDQU (VEX, X/Y0-15) and VMOVDQU64 (EVEX, all) are each measured where the assembler accepts them",
-        "pseudo registers FP/PC/SB/SP(pseudo) (kind 0, mask 0, all with id 0) are not hardware registers and are excluded from every clause",
+        "each register name is assembled and executed only as the DESTINATION of a move from memory, in the width context chosen from avo's own "
+        "Kind()/Size() report (so `h.width = r.size` can only fail when the assembler picks another width for that name; a too-wide or "
+        "too-narrow table row is caught by views_sound/views_complete and by reg_vars, where the width comes from the variable's NAME); "
+        "names as base, index or source operands are not measured here (C05 assembles operands in all positions)",
+        "pseudo registers FP/PC/SB/SP(pseudo) (kind 0, mask 0, all with id 0) are not hardware registers and are excluded from every clause "
+        "except reg_vars (the variable FramePointer holds FP, …)",
         "operand classification of a *converted* physical register by the six specific-register predicates IsAL..IsXMM0 is judged by the "
-        "acceptor only (known finding F20a); the exact model comparison covers IsRegister..IsK for converted registers and all 16 predicates for table rows and virtual registers",
+        "acceptor only (F20a, fixed); the exact model comparison covers IsRegister..IsK for converted registers and all 16 predicates for table rows and virtual registers",
+        "a virtual register 'exists in hardware' when SOME register of its kind has that width view (hwSpecExists); which physical register it "
+        "ends up in, and that the allocator never picks one lacking the view (8H on SI), is C03/C01's subject — C20 checks the view conversion "
+        "itself (Allocation.LookupRegister: exists exactly when the hardware view exists, theorem virt_to_phys)",
+        "the numbering of reg.Kind (Pseudo 0, GP 1, Vector 2, Opmask 3) and the layout of reg.ID (flag | kind<<8 | index<<16) are part of the "
+        "model (Model/Reg.lean, shared with other properties) and are compared with the compiled package on every run (theorem spec_consts, "
+        "ids_wellformed, the `id` stream): a renumbering is reported as a broken obligation, never silently mis-modelled; the oracle's class "
+        "labels are taken from the compiled constants",
+        "freshness of virtual registers is proved for all histories (virt_fresh) and measured on histories of at most 600 mixed allocations plus "
+        "seven runs of 65536/65537 allocations",
     ]
     ctx.trusted += [
         "Oracle.regHW: go tool asm + go tool objdump (instruction bytes), decoders (own prefix/ModRM field extraction, binutils objdump, "
         "golang.org/x/arch x86asm — required to agree), and the host CPU executing each write inside a full-register-file trampoline (harness/gen_reghw.go)",
-        "hwViewExists / hwViews (Model/RegHW.lean): the hand-written list of width views x86-64 has (GP 0-15: 8L/16/32/64, 8H only 0-3; vector 0-31: 128/256/512; K0-7: 64)",
-        "Gen.regs is produced by calling the compiled reg package's own API (reg.Families[*].Registers())",
+        "hwViewExists / hwViews / hwSpecExists (Model/RegHW.lean): the hand-written list of width views x86-64 has (GP 0-15: 8L/16/32/64, 8H only 0-3; vector 0-31: 128/256/512; K0-7: 64)",
+        "varDenotes / pseudoVars (Model/RegHW.lean): the hand-written x86-64 / avo naming convention (ECX = 32-bit view of GP 1, R10W = 16-bit view of "
+        "GP 10, SPB = low byte of GP 4, X7/Y7/Z7, K3, FramePointer = FP …); theorem varDenotes_sane checks it only against hwViewExists",
+        "Gen.regs is produced by calling the compiled reg package's own API (reg.Families[*].Registers()); Gen.regVars by go/types enumeration "
+        "of the exported package-level variables implementing reg.Register plus a generated program that reads each of them (harness/c20vars.go)",
     ]
